@@ -129,7 +129,12 @@ def shard(p):
         for _ in range(p["n_concat"]):
             k = rng.choice([2, 2, 3, 2, 2, 3, 2, 2, 3, 5, 7])
             es = [rng.choice(single) for _ in range(k)]
-            if len({e["key"] for e in es}) != k:
+            if rng.random() < 0.03:
+                # one pumped word: a short unit or pair of units repeated 8-40 times (NsNsNs...): fixed-size buffers per word
+                short = [e for e in single if len(e["word"]) <= 2 and e["bare"]]
+                base = [rng.choice(short) for _ in range(rng.choice([1, 2, 2]))]
+                es = base * rng.choice([8, 9, 12, 16, 17, 20, 33][: 7 if len(base) == 1 else 5])
+            elif len({e["key"] for e in es}) != k:
                 continue
             w = "".join(e["word"] for e in es)
             reqs.append({"op": "query", "q": "1 " + w})
